@@ -919,7 +919,12 @@ pub fn run_one(scn: &Value) -> Vec<Value> {
     } else {
         fastrand::seed(7);
     }
-    let exec = Exec::new(log.clone());
+    let mut exec = Exec::new(log.clone());
+    exec.policy = match cfg["sched"].as_str() {
+        Some("hi") => crate::exec::Policy::Hi,
+        Some(x) if x.starts_with("rand:") => crate::exec::Policy::Rand(x[5..].parse::<u64>().unwrap_or(1).wrapping_mul(0x9E3779B97F4A7C15) | 1),
+        _ => crate::exec::Policy::Lo,
+    };
     let root = TaskCtx {
         name: "root".into(),
         status: Status::default(),
